@@ -1,0 +1,54 @@
+//! Verification hook for property C42 (cargo feature `verif-hooks`, off by default).
+//!
+//! Additive only: builds a [`MarketGraph`] from explicit edge costs (no market models, no
+//! prices) and exposes the raw distance vector of [`BestSwapPaths`], so that the swap path
+//! search (`bellman_ford`, `dfs`, `best_swap_paths`, `BestSwapPaths::to`) can be exercised on
+//! arbitrary graphs. It must live in a child module of `market_graph` because the fields it
+//! touches are private to that module.
+#![allow(missing_docs)]
+
+use super::*;
+
+impl MarketGraph {
+    /// Build a graph whose markets are `(market_token, long_token, short_token,
+    /// cost(long -> short), cost(short -> long))`, inserted in the given order exactly like
+    /// `insert_market` does (long token node, short token node, long edge, short edge).
+    /// A cost of `None` is an edge without estimation.
+    pub fn verif_from_edge_costs(
+        max_steps: usize,
+        markets: &[(Pubkey, Pubkey, Pubkey, Option<Decimal>, Option<Decimal>)],
+    ) -> Self {
+        let mut this = Self::with_config(MarketGraphConfig {
+            swap_estimation_params: Default::default(),
+            max_steps,
+        });
+        for (market_token, long_token, short_token, long_cost, short_cost) in markets {
+            let long_ix = this.insert_collateral_token(*long_token, *market_token);
+            let short_ix = this.insert_collateral_token(*short_token, *market_token);
+            let estimation = |cost: &Option<Decimal>| {
+                cost.map(|cost| SwapEstimation {
+                    ln_exchange_rate: -cost,
+                })
+            };
+            this.graph.add_edge(
+                long_ix,
+                short_ix,
+                Edge::new(*market_token, estimation(long_cost)),
+            );
+            this.graph.add_edge(
+                short_ix,
+                long_ix,
+                Edge::new(*market_token, estimation(short_cost)),
+            );
+        }
+        this
+    }
+}
+
+impl BestSwapPaths<'_> {
+    /// The raw distance recorded for `target` (the value `to` turns into a rate).
+    pub fn verif_distance(&self, target: &Pubkey) -> Option<Decimal> {
+        let ix = self.graph.collateral_tokens.get(target)?.ix;
+        self.distances[self.graph.to_index(ix)]
+    }
+}
